@@ -72,8 +72,20 @@ def finding_canon_jobs(bits):
     return js
 
 
+def equal_d_job():
+    """(lead) route D: equal() never says TRUE for different rectangle lists, ANY number of rectangles"""
+    tpl = {"assigns": "i",
+           "invariants": "0 <= i && i <= reg1->data->numRects && (g_i < i ==> (rects1[g_i].x1 == rects2[g_i].x1 && rects1[g_i].y1 == rects2[g_i].y1 && "
+                         "rects1[g_i].x2 == rects2[g_i].x2 && rects1[g_i].y2 == rects2[g_i].y2))",
+           "decreases": "reg1->data->numRects - i", "vars": ["i", "reg1", "rects1", "rects2", "g_i=g_i"], "headers": []}
+    return Job("equalD.region32.any_rect_count", "C06/equal_d.c", route="D", enforce="pixman_region32_equal",
+               loops={"pixman_region32_equal": [tpl]}, kind="proof", functions=["pixman_region32_equal"], timeout=900, min_props=10,
+               domain="enforced function contract + loop invariant: heap regions with any 1 <= numRects <= 2^20 each: TRUE => same extents, "
+                      "same count and equal rectangles at a ghost index; assigns nothing; terminates")
+
+
 def jobs(tier):
-    js = []
+    js = [equal_d_job()]
     for bits in (32, 16):
         js += equal_jobs(bits, tier)
         js += selfcheck_jobs(bits, tier)
